@@ -299,6 +299,11 @@ def run_verus(prop, tier, seed=0, repo=None):
                     if 'canary' in src_line or (fname == 'canary'):
                         canary_failed = True
                         continue
+                    if fname is None:
+                        # a failure outside every extracted function: a lemma or spec item of the prelude / unit did not verify.
+                        # Verus still ASSUMES that lemma where it is called, so nothing this run reports can be trusted - machinery, not a verdict
+                        rejected = 'a lemma or spec item of the unit itself failed to verify (not a verdict): %s' % e['text'][:700]
+                        break
                     kind = re.sub(r'[^a-z]+', '-', e['kind'].lower()).strip('-')[:40]
                     callee = next((p for p in PRIMS if '.%s(' % p in src_line or ' %s(' % p in src_line), None)
                     label = '%s.%s@%s' % (fname or 'unit', ('pre.' + callee) if (callee and 'precondition' in e['kind']) else kind, re.sub(r'\s+', ' ', src_line)[:70])
@@ -313,7 +318,7 @@ def run_verus(prop, tier, seed=0, repo=None):
                     failed[ob[0]] = (e['text'][:1500], ob[1] or (fprops or u.PROPS))
                     if ob_line and re.search(r'\bassert\(', glines[ob_line - 1]) and 'assert(false)' not in glines[ob_line - 1]:
                         new_assert_lines.append(ob_line)
-            if not new_assert_lines:
+            if rejected or not new_assert_lines:
                 break
             for ln in new_assert_lines:
                 glines[ln - 1] = re.sub(r'assert\(.*\)\s*/\*OB:', '/* unmasked in a later round */ /*XB:', glines[ln - 1])
